@@ -509,10 +509,13 @@ def run_case(case):
             rec.c('plain_trajectory_cases')
         if spec['remove']:
             rec.c('cases_with_rows_removed_after_panel')
-        rec.sample({'idcol': spec['idcol'], 'table_a': r0['tab'], 'formula_P': spec['formulas']['P'], 'shared': spec['shared'],
-                    'eval_betas': spec['eval_betas'], 'draws': spec['draws'], 'ndraws': spec['ndraws'],
-                    'reference_by_id': dict(zip(map(repr, r0['refs']['P']['order']), r0['refs']['P']['value'].tolist())),
-                    'simulate_by_id': {repr(k): v for k, v in r0['sim'].get('P', {}).items()}})
+        if r0['n_ind'] >= 2 and 3 <= r0['n_rows'] <= 14:  # written-out samples: small, readable, non-trivial
+            rec.sample({
+                'idcol': spec['idcol'], 'table_a': r0['tab'], 'formula_P': spec['formulas']['P'], 'shared': spec['shared'],
+                'eval_betas': spec['eval_betas'], 'draws': spec['draws'], 'ndraws': spec['ndraws'],
+                'reference_by_id': dict(zip(map(repr, r0['refs']['P']['order']), r0['refs']['P']['value'].tolist())),
+                'simulate_by_id': {repr(k): v for k, v in r0['sim'].get('P', {}).items()},
+            })
     else:
         rec.c('cases_without_evaluation')
     for k, v in mon.COUNT.items():
